@@ -305,7 +305,7 @@ int main(void)
 		V_IN_LONG(vin_new);
 		V_IN_UCHAR(vin_newc);
 		char ns[2] = { (char)vin_newc, 0 };
-		unsigned base_n = (pre_flags & CFGF_RESET) ? 0 : pre_n;
+		unsigned base_n = pre_n; /* the abstract store: values the option holds, declared defaults included */
 
 		V_ASSUME(vin_idx <= 4);
 		if (O->type == CFGT_INT)
@@ -335,8 +335,7 @@ int main(void)
 					A09((long)cfg_opt_getnbool(O, pos) == (vin_new & 1), "[C09] the indexed getter returns the boolean just set");
 				if (O->type == CFGT_STR)
 					A09(cfg_opt_getnstr(O, pos) != NULL && strcmp(cfg_opt_getnstr(O, pos), ns) == 0, "[C09] the indexed getter returns the string just set");
-				if (!(pre_flags & CFGF_RESET))
-					for (i = 0; i < NV; i++)
+				for (i = 0; i < NV; i++)
 						if (i != pos) {
 							if (O->type == CFGT_INT || O->type == CFGT_BOOL)
 								A09(obs_num(i) == pre_num[i], "[C09] the other values keep their place and content");
